@@ -59,6 +59,18 @@ class StepBudgetExceeded(BaseException):
     the per-chunk wall-clock guard, which is a harness timeout, not a verdict)."""
 
 
+_SEAM_NAMES = ("SimFile", "SimFSFile", "SimFS", "OsShim", "_PathShim", "TimeShim", "GlobShim", "ShutilShim", "_TextWriter")
+
+
+def check_seam_gap(exc):
+    """The code under test used a part of the file/os/time protocol that a
+    simulated seam object does not implement: a gap in the HARNESS, which must
+    stop the check (exit 3) rather than be mistaken for behaviour of the
+    repository (a crash, a rejection, or an unparseable input)."""
+    if isinstance(exc, (AttributeError, TypeError, NotImplementedError)) and any(("'%s'" % n) in str(exc) or ("%s." % n) in str(exc) for n in _SEAM_NAMES):
+        raise HarnessError("simulated seam object lacks something the code under test uses: %r" % (exc,))
+
+
 def get_verif_seed():
     v = os.environ.get("VERIF_SEED", "")
     try:
@@ -131,6 +143,32 @@ class SimFile(object):
         out = bytes(self._buf[self._pos : self._pos + n])
         self._pos += len(out)
         return out
+
+    def readinto(self, b):
+        data = self.read(len(b))
+        b[: len(data)] = data
+        return len(data)
+
+    readinto1 = readinto
+
+    def read1(self, n=-1):
+        return self.read(n)
+
+    def readall(self):
+        return self.read(-1)
+
+    def isatty(self):
+        return False
+
+    def fileno(self):
+        import io
+
+        raise io.UnsupportedOperation("fileno")
+
+    def truncate(self, size=None):
+        size = self._pos if size is None else size
+        del self._buf[size:]
+        return size
 
     # --- writing
     def write(self, b):
@@ -235,6 +273,7 @@ def repo_frame(exc):
 
 
 def exc_sig(oracle, exc):
+    check_seam_gap(exc)
     return "%s/%s@%s" % (oracle, type(exc).__name__, repo_frame(exc))
 
 
